@@ -111,6 +111,22 @@ def run(tier, seed, rng):
             first = (n % 256) if how == 'field' else n + 3
             G.add_unpack(0, bytes([first, 0x10]) + b'\xbe\xefwxyz', 0, record=True)
         groups.append(G)
+    # ---- a field selected at run time, in classes that set class-wide options (byte order, search window): the selected
+    # field is compiled on the spot, on both directions, and must be read and written the same way
+    for variant, (end, sbl) in enumerate([('little', None), ('big', 2), ('local', 3), (None, None)]):
+        opts = [('lit', ('leaf', ('int', 2, False, None, 0))), ('lit', ('leaf', ('int', 3, True, None, 0))),
+                ('lit', ('leaf', ('dmarker', b';', False, b'')))]
+        sel = ('choose', ('bin', 'Mod', ('field', 0), ('lit', 3)), opts)
+        fields = [{'move': None, 'body': ('elem', ('leaf', ('int', 1, False, None, 0)))},
+                  {'move': None, 'body': ('elem', ('refsel', sel, 'expr', 0))},
+                  {'move': None, 'body': ('seq', ('refsel', sel, 'lambda', 0), (('lit', 2), 'const'), None, None, None, None)},
+                  {'move': None, 'body': ('elem', ('leaf', ('int', 1, False, None, 0)))}]
+        table = {0: dict(end=end, align=None, sbl=sbl, gp=True, gu=False, vec=True, ann=True, fields=fields)}
+        G = pktcases.Group(table, 52000 + variant)
+        for k in range(3):
+            for body in (b'\x01\x02\x03', b'\x80\x00\x7f', b'ab;', b';;;', b'a;b'):
+                G.add_unpack(0, bytes([k]) + body * 3 + b'\x09', 0, record=True)
+        groups.append(G)
     records, disagreements = pktcases.run_groups(groups, 'c01')
     failures = []
     dist = dict(parsed=0, exact_checked=0, weak_checked=0, with_holes=0, offset_nonzero=0, pack_error_on_overlap=0)
